@@ -331,6 +331,30 @@ func TestVerifC40BPFModeUnknownWorkloadIface(t *testing.T) {
 				}
 			}
 		}
+		// Sentence 3 in BPF mode ("workload traffic to the host passes the workload's egress policy
+		// before the configured endpoint-to-host action"): the BPF program stamps
+		// MarkSeenFallThrough on a to-host packet it did NOT evaluate policy for (mid-flow packet
+		// without BPF conntrack state) and leaves the decision to Linux conntrack.  Such a packet
+		// from a workload interface, known or not, that Linux conntrack does not know either has
+		// passed no policy, so no endpoint-to-host action may let it in: it must be dropped.
+		for _, pfx := range c.prefixes {
+			for _, iface := range []string{pfx + "known1", pfx + "deadbeef01"} {
+				for _, mark := range []uint32{tcdefs.MarkSeenFallThrough, tcdefs.MarkSeenFallThrough | 0x5} {
+					for _, pr := range c40bpfProbes(c, iface, mark, []string{"LOCAL", "BROADCAST"}) {
+						if pr.path != "input" || pr.pk.CTState == "ESTABLISHED" {
+							continue // flows Linux conntrack knows pre-date the BPF programs and are let through
+						}
+						nProbes++
+						res := c40bpfRun(t, w, pr)
+						if !c40bpfDropped(res.Verdict) {
+							t.Fatalf("C40 violated (BPF mode): workload-to-host packet carrying the fall-through mark %#x (the BPF program did not evaluate the workload's egress policy) and unknown to Linux conntrack (ctstate %s) was not dropped: it reached the endpoint-to-host action %q without passing policy\n  config: %s\n  packet: proto=%d in=%q %s\n  outcome: %s\n%s%s",
+								pr.pk.Mark, pr.pk.CTState, c.action, c, pr.pk.Proto, iface, pr.comment, res.Verdict, c40bpfDescribePath(res), w.dump())
+						}
+						classes["fallthrough:unpoliced-"+strings.ToLower(pr.pk.CTState)+"-dropped"] = true
+					}
+				}
+			}
+		}
 		var cl []string
 		for k := range classes {
 			cl = append(cl, k)
